@@ -2,6 +2,7 @@
 import z3
 
 from pyvc.spec import Registry, SpecFn
+from pyvc import ext_C19 as X
 from pyvc.values import Iter, Opaque, PList, Sym, fresh, fresh_name, to_z3
 
 POP = "swcgeom/core/population.py"
@@ -146,6 +147,13 @@ TREE = "swcgeom/core/tree.py"
 TREE_OF = z3.Function("tree_of", _I, _I)  # ghost: the tree stored in a file
 GHOST["tree_of"] = SpecFn(lambda e, a, k: Sym(TREE_OF(to_z3(a[0], "int")), "oref"), "tree_of")
 
+# GHOST STATE of a LazyLoadingTrees object: the field `reads` (a list of ints, one per file) counts the calls of
+# Tree.from_swc made for that slot.  The program never touches it: it is created by the constructor's ghost_exit (also when
+# the constructor is inlined at a call site), incremented by the ghost_exit of `load` once per LOGGED Tree.from_swc call,
+# and every other method sees it only through the contracts of `load` / `__getitem__`.  The object invariant
+# 0 <= reads[j] <= 1  and  (reads[j] == 0  <->  trees[j] is None)  makes "each file is read at most once" a clause that
+# every method re-establishes, and the frame clauses ("only the requested slot's counter may move") make "only on request" one.
+
 
 def lazy_obj(S, name="lz"):
     from swcgeom.core.population import LazyLoadingTrees
@@ -153,17 +161,67 @@ def lazy_obj(S, name="lz"):
 
     swcs = S.plist("ref", name=name + "_swcs")
     trees = S.plist("oref", name=name + "_trees")
-    return S.obj(LazyLoadingTrees, swcs=swcs, trees=trees, kwargs=PDict({}))
+    reads = S.plist("int", name=name + "_reads")
+    return S.obj(LazyLoadingTrees, swcs=swcs, trees=trees, kwargs=PDict({}), reads=reads)
 
 
-WF_LAZY = [
-    "wf-same-length :: len_(self.trees) == len_(self.swcs)",
-    "wf-cache-is-file-content :: forall(0, len_(self.swcs), lambda j: implies(not same(self.trees[j], None), same(self.trees[j], tree_of(self.swcs[j]))))",
-]
+def wf_lazy(p="self"):
+    return [
+        f"wf-same-length :: len_({p}.trees) == len_({p}.swcs) and len_({p}.reads) == len_({p}.swcs)",
+        f"wf-cache-is-file-content :: forall(0, len_({p}.swcs), lambda j: implies(not same({p}.trees[j], None), same({p}.trees[j], tree_of({p}.swcs[j]))))",
+        f"wf-each-file-read-at-most-once-and-cached-iff-read :: forall(0, len_({p}.swcs), lambda j: 0 <= {p}.reads[j] and {p}.reads[j] <= 1 and iff({p}.reads[j] == 0, same({p}.trees[j], None)))",
+    ]
+
+
+def frame_lazy(p="self", slot=None):
+    """what a method may do to the cache and the read counters: nothing outside `slot` (an expression), a cached tree is never
+    dropped or replaced, no counter ever decreases, and the counter of `slot` moves by one exactly when that slot was empty"""
+    out = [
+        f"files-untouched :: len_({p}.swcs) == len_(old({p}.swcs)) and forall(0, len_({p}.swcs), lambda j: same({p}.swcs[j], old({p}.swcs)[j]))",
+        f"lengths-kept :: len_({p}.trees) == len_(old({p}.trees)) and len_({p}.reads) == len_(old({p}.reads))",
+    ]
+    if slot is None:
+        out.append(f"nothing-read-nothing-loaded :: forall(0, len_({p}.trees), lambda j: same({p}.trees[j], old({p}.trees)[j]) and {p}.reads[j] == old({p}.reads)[j])")
+    else:
+        out += [
+            f"only-the-requested-slot-may-change :: forall(0, len_({p}.trees), lambda j: implies(j != {slot}, same({p}.trees[j], old({p}.trees)[j]) and {p}.reads[j] == old({p}.reads)[j]))",
+            f"requested-file-read-only-if-not-cached :: {p}.reads[{slot}] == old({p}.reads)[{slot}] + ite(same(old({p}.trees)[{slot}], None), 1, 0) "
+            f"and implies(not same(old({p}.trees)[{slot}], None), same({p}.trees[{slot}], old({p}.trees)[{slot}]))",
+        ]
+    return out
+
+
+WF_LAZY = wf_lazy("self")
+NORM = "ite(key < 0, key + len_(self.swcs), key)"
+
+
+def _count_reads(E, v, o):
+    """ghost_exit of LazyLoadingTrees.load: reads[key] += number of Tree.from_swc calls this execution made"""
+    n = sum(1 for nm, _ in E.call_log if nm == "Tree.from_swc")
+    if n:
+        r = v["self"].fields["reads"]
+        kz = to_z3(v["key"], "int")
+        r.cols = [z3.Store(r.cols[0], kz, z3.Select(r.cols[0], kz) + n)]
+
+
+def _init_reads(E, v, o):
+    """ghost_exit of LazyLoadingTrees.__init__ (also run where the constructor is inlined): no file has been read"""
+    from pyvc.values import zint
+
+    s = v["self"]
+    n = s.fields["swcs"]
+    r = PList()
+    r.items, r.kinds, r.tup, r.name = None, ["int"], False, "reads"
+    r.cols = [z3.K(_I, z3.IntVal(0))]
+    r.n = zint(len(n.items)) if n.items is not None else n.n
+    s.fields["reads"] = r
 
 
 def register_lazy(R):
-    # assumed contract of the reader (its own correctness is C01/C02)
+    # ASSUMED contract of the reader.  `not None` is the proved clause C02 `Tree.from_swc/post/something-is-returned`
+    # (contracts/C02.py, registered under the alias key Tree.<locals>.from_swc because its carrier is verified over an abstract
+    # file); `tree_of(file)` NAMES the tree a file denotes (reader deterministic, file system static while the population is
+    # used; what that tree is, is C01/C02).  Unreadable / malformed files (C02: ValueError) are outside C19's quantifier.
     R.add(
         f"{TREE}:Tree.from_swc",
         prop="C19",
@@ -182,18 +240,22 @@ def register_lazy(R):
         f"{POP}:LazyLoadingTrees.__init__",
         prop="C19",
         setup=lambda S: (lambda m: dict(self=S.obj(__import__("swcgeom.core.population", fromlist=["x"]).LazyLoadingTrees), swcs=m, __ghost__=GHOST))(S.plist("ref", name="files")),
+        ghost_exit=_init_reads,
+        options=dict(ghost_exit_inlined=True),
         ensures=[
             "files-kept :: len_(self.swcs) == len_(swcs) and forall(0, len_(swcs), lambda j: same(self.swcs[j], swcs[j]))",
             "nothing-loaded :: len_(self.trees) == len_(self.swcs) and forall(0, len_(self.swcs), lambda j: same(self.trees[j], None))",
             "construction-reads-no-file :: ncalls('Tree.from_swc') == 0",
-        ],
+            "no-file-counted-as-read :: len_(self.reads) == len_(self.swcs) and forall(0, len_(self.swcs), lambda j: self.reads[j] == 0)",
+        ] + [c.replace("wf-", "inv-established/") for c in wf_lazy("self")],
     )
     R.add(
         f"{POP}:LazyLoadingTrees.load",
         prop="C19",
         setup=lambda S: dict(self=lazy_obj(S), key=S.int("key"), __ghost__=GHOST),
         requires=WF_LAZY + ["key-in-range :: 0 <= key and key < len_(self.swcs)"],
-        modifies=["self.trees"],
+        modifies=["self.trees", "self.reads"],
+        ghost_exit=_count_reads,
         ensures=[
             "loaded :: not same(self.trees[key], None)",
             "is-the-file-content :: same(self.trees[key], tree_of(self.swcs[key]))",
@@ -202,23 +264,27 @@ def register_lazy(R):
             "cached-tree-kept-without-reading :: implies(not same(old(self.trees)[key], None), same(self.trees[key], old(self.trees)[key]) and ncalls('Tree.from_swc') == 0)",
             "reads-own-file-exactly-once :: implies(same(old(self.trees)[key], None), ncalls('Tree.from_swc') == 1 and same(callarg('Tree.from_swc', 0, 'swc_file'), self.swcs[key]))",
             "never-reads-twice :: ncalls('Tree.from_swc') <= 1",
-        ],
+            # the per-file read counter (ghost): counts the logged reads, stays <= 1, moves for the requested slot only
+            "read-counter-counts-the-read :: self.reads[key] == old(self.reads)[key] + ite(same(old(self.trees)[key], None), 1, 0)",
+            "other-counters-untouched :: len_(self.reads) == len_(old(self.reads)) and forall(0, len_(self.reads), lambda j: implies(j != key, self.reads[j] == old(self.reads)[j]))",
+            "each-file-read-at-most-once :: self.reads[key] <= 1",
+        ] + [c.replace("wf-", "inv-kept/") for c in wf_lazy("self")],
     )
     R.add(
         f"{POP}:LazyLoadingTrees.__getitem__",
         prop="C19",
         setup=lambda S: dict(self=lazy_obj(S), key=S.int("key"), __ghost__=GHOST),
         requires=WF_LAZY,
-        modifies=["self.trees"],
+        modifies=["self.trees", "self.reads"],
         raises={"IndexError": "out-of-range-only :: key < -len_(self.swcs) or key >= len_(self.swcs)"},
         returns="oref",
         ensures=[
             "in-range-accepted :: -len_(self.swcs) <= key and key < len_(self.swcs)",
-            "tree-of-the-ith-file :: same(result, tree_of(self.swcs[ite(key < 0, key + len_(self.swcs), key)])) and not same(result, None)",
-            "only-that-entry-changes :: len_(self.trees) == len_(old(self.trees)) and forall(0, len_(self.trees), lambda j: implies(j != ite(key < 0, key + len_(self.swcs), key), same(self.trees[j], old(self.trees)[j])))",
-            "loads-only-the-requested-file :: ncalls('LazyLoadingTrees.load') == 1 and callarg('LazyLoadingTrees.load', 0, 'key') == ite(key < 0, key + len_(self.swcs), key)",
-            "wf-kept :: forall(0, len_(self.swcs), lambda j: implies(not same(self.trees[j], None), same(self.trees[j], tree_of(self.swcs[j]))))",
-        ],
+            f"tree-of-the-ith-file :: same(result, tree_of(self.swcs[{NORM}])) and not same(result, None)",
+            f"only-that-entry-changes :: len_(self.trees) == len_(old(self.trees)) and forall(0, len_(self.trees), lambda j: implies(j != {NORM}, same(self.trees[j], old(self.trees)[j])))",
+            f"loads-only-the-requested-file :: ncalls('LazyLoadingTrees.load') == 1 and callarg('LazyLoadingTrees.load', 0, 'key') == {NORM}",
+            f"returns-the-cached-tree :: same(result, self.trees[{NORM}])",
+        ] + [c for c in frame_lazy("self", NORM) if not c.startswith("files-untouched")] + [c.replace("wf-", "inv-kept/") for c in wf_lazy("self")],
     )
 
     def pop_obj(S):
@@ -230,20 +296,21 @@ def register_lazy(R):
         f"{POP}:Population.__init__",
         prop="C19",
         setup=lambda S: dict(self=S.obj(__import__("swcgeom.core.population", fromlist=["x"]).Population), swcs=lazy_obj(S), __ghost__=GHOST),
-        requires=["wf-same-length :: len_(swcs.trees) == len_(swcs.swcs)",
-                  "wf-cache-is-file-content :: forall(0, len_(swcs.swcs), lambda j: implies(not same(swcs.trees[j], None), same(swcs.trees[j], tree_of(swcs.swcs[j]))))"],
+        requires=wf_lazy("swcs"),
         ensures=[
             "holds-the-trees :: same(self.trees, swcs)",
             "at-most-a-probe-of-the-first-file :: ncalls('LazyLoadingTrees.__getitem__') <= 1 and implies(ncalls('LazyLoadingTrees.__getitem__') == 1, callarg('LazyLoadingTrees.__getitem__', 0, 'key') == 0)",
             "no-direct-read :: ncalls('Tree.from_swc') == 0 and ncalls('LazyLoadingTrees.load') == 0",
-        ],
+            "only-the-first-file-may-have-been-read :: len_(swcs.reads) == len_(old(swcs.reads)) and forall(1, len_(swcs.reads), lambda j: swcs.reads[j] == old(swcs.reads)[j] and same(swcs.trees[j], old(swcs.trees)[j]))",
+        ] + [c.replace("wf-", "inv-kept/") for c in wf_lazy("swcs")],
     )
     R.add(
         f"{POP}:Population.__len__",
         prop="C19",
-        setup=lambda S: dict(self=pop_obj(S), __ghost__=GHOST),
+        variants={"lazy": lambda S: dict(self=pop_obj(S), __ghost__=GHOST),
+                  "any-trees": lambda S: dict(self=S.obj(__import__("swcgeom.core.population", fromlist=["x"]).Population, trees=Opaque(z3.Int(fresh_name("trees")), TREES_PROTO), root=""), __ghost__=GHOST)},
         returns="int",
-        ensures=["number-of-files :: result == len_(self.trees.swcs)"],
+        ensures=["number-of-trees :: result == len_(self.trees)"],
     )
     R.add(
         f"{POP}:Population.__getitem__",
@@ -251,13 +318,12 @@ def register_lazy(R):
         variants={
             "int": lambda S: dict(self=pop_obj(S), key=S.int("key"), __ghost__=GHOST),
         },
-        requires=["wf-same-length :: len_(self.trees.trees) == len_(self.trees.swcs)",
-                  "wf-cache-is-file-content :: forall(0, len_(self.trees.swcs), lambda j: implies(not same(self.trees.trees[j], None), same(self.trees.trees[j], tree_of(self.trees.swcs[j]))))"],
+        requires=wf_lazy("self.trees"),
         raises={"IndexError": "out-of-range-only :: key < -len_(self.trees.swcs) or key >= len_(self.trees.swcs)"},
         ensures=[
             "tree-of-the-ith-file :: same(result, tree_of(self.trees.swcs[ite(key < 0, key + len_(self.trees.swcs), key)]))",
             "one-delegated-lookup :: ncalls('LazyLoadingTrees.__getitem__') == 1",
-        ],
+        ] + frame_lazy("self.trees", "ite(key < 0, key + len_(self.trees.swcs), key)") + [c.replace("wf-", "inv-kept/") for c in wf_lazy("self.trees")],
     )
 
 
